@@ -113,7 +113,7 @@ where
                         }
                         match decoded {
                             Ok(Some(item)) => return Poll::Ready(Some(Ok(item))),
-                            Ok(None) => return Poll::Pending,
+                            Ok(None) => continue,
                             Err(e) => return Poll::Ready(Some(Err(e))),
                         }
                     }
